@@ -36,10 +36,11 @@ EXHAUSTIVE_NOTE = {"quick": "every single-preemption schedule of pair (col_a, co
 
 PAIRS = [("col_a", "col_b"), ("pal12_a", "pal12_b"), ("col_a", "multi_a"), ("figure", "col_b"), ("pageby", "multi_b"),
          ("raising", "col_a"), ("bcol_a", "bcol_b"), ("paged_s8", "paged_s14"), ("blk_a", "col_b"),
-         ("badcolor", "col_a"), ("multi_raising", "multi_b")]
+         ("badcolor", "col_a"), ("multi_raising", "multi_b"), ("graded_s9", "graded_s92")]
 # double preemptions on a grid: thread 0 is left at its k1-th boundary, thread 1 at its k2-th, then thread 0
 # runs to its end before thread 1 resumes (and the mirror image)
-GRID_PAIRS = [("blk_a", "col_b"), ("badcolor", "col_b"), ("col_a", "col_b"), ("pal12_a", "blk_a")]
+GRID_PAIRS = [("blk_a", "col_b"), ("badcolor", "col_b"), ("col_a", "col_b"), ("graded_s9", "graded_s92"),
+              ("pal12_a", "blk_a")]
 TRIPLES = [("col_a", "col_b", "multi_a"), ("figure", "pageby", "col_b"), ("col_a", "raising", "multi_b")]
 
 
@@ -61,7 +62,7 @@ def plan(tier, seed):
         for i in range(5):
             descs.append({"kind": "cold", "docs": list(pair), "lo": i, "step": 5, "timeout": 1800})
     g = 12 if tier == "quick" else 40
-    for pair in (GRID_PAIRS[:3] if tier == "quick" else GRID_PAIRS):
+    for pair in (GRID_PAIRS[:4] if tier == "quick" else GRID_PAIRS):
         for i in range(4):
             descs.append({"kind": "grid", "docs": list(pair), "g": g, "lo": i, "step": 4, "timeout": 1800})
     nrand = 400 if tier == "quick" else 20000
